@@ -42,7 +42,7 @@ def regen(ctx):
 
 
 EVAL_DEFS = [("GO_UNM", "go_unmodelled"), ("PY_UNM", "py_unmodelled"), ("MM_GO", "mm_go"), ("MM_PY", "mm_py"),
-             ("MM_FE", "mm_fe"), ("PF_GO", "pf_go"), ("PF_PY", "pf_py"), ("PF_AGREE", "pf_agree"), ("HAS", "has_decl")]
+             ("MM_FE", "mm_fe"), ("PF_GO", "pf_go"), ("PF_PY", "pf_py"), ("PF_AGREE", "pf_agree"), ("PF_AGAIN", "pf_py_again"), ("HAS", "has_decl")]
 LOST_DEFS = [("FE", "lost_in_frontend"), ("GOCHAIN", "lost_in_go_chain"), ("PYCHAIN", "lost_in_py_chain"),
              ("GOHAS", "go_post_has"), ("PYHAS", "py_post_has")]
 
@@ -209,7 +209,7 @@ def run(ctx, verdict, replay=None, model_ok=True):
     pjobs, pidx = [], []
     for i, o in enumerate(objs):
         if o["pname"]:
-            pjobs.append({"id": "p%d" % i, "sid": o["sid"], "type": o["pname"], "docs": [], "ops": ["ctor"]})
+            pjobs.append({"id": "p%d" % i, "sid": o["sid"], "type": o["pname"], "docs": [], "ops": ["ctor", "ctor2"]})
             pidx.append(i)
     pres = batch.run_py(pjobs)
     for i, r in zip(pidx, pres):
@@ -269,14 +269,15 @@ def run(ctx, verdict, replay=None, model_ok=True):
         go_obs = g["ctor"] if g and g.get("ctors") == "ok" else None
         py_import = bool(p and p.get("import") == "ok" and p.get("known"))
         py_obs = p["ctor"] if p and p.get("ctors") == "ok" else None
-        o["go_obs"], o["py_obs"], o["go_compiles"], o["py_import"] = go_obs, py_obs, go_compiles, py_import
+        py_again = p["ctor2"] if p and p.get("ctor2s") == "ok" else None
+        o["go_obs"], o["py_obs"], o["go_compiles"], o["py_import"], o["py_again"] = go_obs, py_obs, go_compiles, py_import, py_again
         decls = gencode.g_list('(mkDecl %s %s %s %s)' % (srcgen.g_str(d["field"]), srcgen.g_str(d["kind"]),
                                                          srcgen.doc_to_gallina(d["value"]), "true" if d["accepted"] else "false")
                                for d in o["decls"])
-        term = "(ctx_%s, %s, pre_%s, %s, %s, %s, %s, %s, (mkCObs %s %s %s %s), %s)" % (
+        term = "(ctx_%s, %s, pre_%s, %s, %s, %s, %s, %s, (mkCObs %s %s %s %s %s), %s)" % (
             sid, "pctx_%s" % sid if o["pname"] else "[]", sid, srcgen.g_str(s["fmt"]), srcgen.g_str(sid),
             srcgen.g_str(o["gname"] or ""), srcgen.g_str(o["pname"] or ""), gencode.g_list(srcgen.g_str(x) for x in o["key"].split(".")),
-            "true" if go_compiles else "false", opt(go_obs), "true" if py_import else "false", opt(py_obs), decls)
+            "true" if go_compiles else "false", opt(go_obs), "true" if py_import else "false", opt(py_obs), opt(py_again), decls)
         cases.append((sid, term))
     ev = eval_cases(ctx, batch, "cases_C10", cases, "ccase", EVAL_DEFS)
     ctx.log("coq evaluated %d objects: " % len(cases) + " ".join("%s=%d" % (k, len(v)) for k, v in ev.items()))
@@ -362,6 +363,14 @@ def run(ctx, verdict, replay=None, model_ok=True):
         sig_hist[key] = sig_hist.get(key, 0) + 1
         if budget["n"] > 0 and verdict.propfail(sig, payload(sid, extra)) == "violation":
             budget["n"] -= 1
+    # a second default object differs from the first after the first one's collections were mutated
+    for i in ev["PF_AGAIN"]:
+        o = objs[i]
+        changed = sorted(k for k in (o["py_obs"] or {}) if not srcgen.json_same((o["py_obs"] or {}).get(k), (o["py_again"] or {}).get(k, KeyError))) \
+            if isinstance(o["py_again"], dict) and isinstance(o["py_obs"], dict) else []
+        kinds = sorted({d["kind"] for d in o["decls"] if d["field"] in changed}) or ["no-declared-default"]
+        verdict.propfail({"kind": "python-default-shared-between-instances", "fmt": by_sid[o["sid"]]["fmt"], "dkind": "+".join(kinds)},
+                         payload(o["sid"], {"object": o["pname"], "first": o["py_obs"], "second_after_mutating_the_first": o["py_again"]}))
     # constructor raised / driver died although the module imported
     for i, o in enumerate(objs):
         p = o.get("py")
@@ -375,7 +384,7 @@ def run(ctx, verdict, replay=None, model_ok=True):
 
     # ---- mismatches
     unexplained = []
-    for k in ("MM_GO", "MM_PY", "MM_FE"):
+    for k in ("MM_GO", "MM_PY", "MM_FE", "PF_AGAIN"):
         for i in ev[k][:8]:
             o = objs[i]
             unexplained.append(dict(payload(o["sid"]), which=k, object=o["key"], go_compiles=o["go_compiles"],
@@ -427,6 +436,7 @@ def run(ctx, verdict, replay=None, model_ok=True):
         "go_packages_not_compiling": len(batch.compile_errors),
         "python_modules_not_importing": len({o["sid"] for o in objs if o.get("py") and not o["py_import"]}),
         "objects_where_a_default_or_constant_is_not_held": {"go": len(ev["PF_GO"]), "python": len(ev["PF_PY"]), "languages_disagree": len(ev["PF_AGREE"])},
+        "objects_whose_second_default_instance_differs_after_mutating_the_first": len(ev["PF_AGAIN"]),
         "failures_by_signature": {k: v for k, v in sorted(sig_hist.items(), key=lambda kv: -kv[1])},
         "unmodelled_objects": {"go": len(ev["GO_UNM"]), "python": len(ev["PY_UNM"])},
         "mismatches_model_vs_impl": {k: len(ev[k]) for k in ("MM_GO", "MM_PY", "MM_FE")},
